@@ -19,13 +19,26 @@ type boundsA struct {
 	maxReq, maxOpt, maxKey int
 	maxPairs               int // key/value pairs after the positional arguments
 	vias                   []string
+	// sixth round: bounds of the call-route / environment / lambda-list-dimension families
+	routeReq, routeOpt, routeKey int // shapes used by the further call routes
+	routePairs                   int
+	routeAlias                   bool
+	envPairs                     int
+	dimReq, dimOpt, dimKey       int // shapes used by the further lambda-list dimensions (forms, &allow-other-keys, spelling)
+	dimPairs                     int
+	unsupReq, unsupOpt, unsupKey int  // shapes of the supplied-p / ((:keyword var)) dimensions (slip rejects the definitions)
+	reduced                      bool // the sixth-round families use one with/without-default pattern per parameter count instead of all of them
 }
 
 func boundsFor(tier string) boundsA {
 	if tier == engine.Thorough {
-		return boundsA{maxReq: 3, maxOpt: 2, maxKey: 3, maxPairs: 3, vias: []string{"defun", "funcall", "apply", "applysym"}}
+		return boundsA{maxReq: 3, maxOpt: 2, maxKey: 3, maxPairs: 3, vias: []string{"defun", "funcall", "apply", "applysym"},
+			routeReq: 3, routeOpt: 2, routeKey: 2, routePairs: 2, routeAlias: false, envPairs: 1,
+			dimReq: 2, dimOpt: 2, dimKey: 2, dimPairs: 2, unsupReq: 2, unsupOpt: 2, unsupKey: 2, reduced: false}
 	}
-	return boundsA{maxReq: 2, maxOpt: 2, maxKey: 2, maxPairs: 3, vias: []string{"defun", "funcall", "apply", "applysym"}}
+	return boundsA{maxReq: 2, maxOpt: 2, maxKey: 2, maxPairs: 3, vias: []string{"defun", "funcall", "apply", "applysym"},
+		routeReq: 2, routeOpt: 2, routeKey: 2, routePairs: 1, routeAlias: false, envPairs: 1,
+		dimReq: 1, dimOpt: 2, dimKey: 2, dimPairs: 2, unsupReq: 1, unsupOpt: 1, unsupKey: 2, reduced: true}
 }
 
 func boolVecs(n int) [][]bool {
@@ -45,13 +58,35 @@ func boolVecs(n int) [][]bool {
 
 // shapes enumerates the lambda-list shapes, simplest first.
 func shapes(b boundsA) []*shape {
+	return shapesOf(b.maxReq, b.maxOpt, b.maxKey)
+}
+
+func shapesOf(maxReq, maxOpt, maxKey int) []*shape {
+	return shapesWith(maxReq, maxOpt, maxKey, boolVecs, boolVecs)
+}
+
+// patterns: a fixed choice of with/without-default patterns per parameter count ("dn" = first with, second without a default).
+func patterns(byCount ...[]string) func(n int) [][]bool {
+	return func(n int) [][]bool {
+		if n == 0 {
+			return [][]bool{nil}
+		}
+		var out [][]bool
+		for _, p := range byCount[n-1] {
+			out = append(out, parseFlags(p))
+		}
+		return out
+	}
+}
+
+func shapesWith(maxReq, maxOpt, maxKey int, optVecs, keyVecs func(int) [][]bool) []*shape {
 	var out []*shape
-	for req := 0; req <= b.maxReq; req++ {
-		for no := 0; no <= b.maxOpt; no++ {
-			for _, opt := range boolVecs(no) {
+	for req := 0; req <= maxReq; req++ {
+		for no := 0; no <= maxOpt; no++ {
+			for _, opt := range optVecs(no) {
 				for _, rest := range []bool{false, true} {
-					for nk := 0; nk <= b.maxKey; nk++ {
-						for _, key := range boolVecs(nk) {
+					for nk := 0; nk <= maxKey; nk++ {
+						for _, key := range keyVecs(nk) {
 							for _, aux := range []bool{false, true} {
 								out = append(out, &shape{req: req, opt: opt, rest: rest, key: key, aux: aux})
 							}
@@ -62,6 +97,19 @@ func shapes(b boundsA) []*shape {
 		}
 	}
 	sort.SliceStable(out, func(i, j int) bool { return out[i].weight() < out[j].weight() })
+	return out
+}
+
+// withMode copies the shapes into a mode (see shape.mode), keeping those for which keep says so.
+func withMode(in []*shape, mode byte, aok bool, keep func(*shape) bool) []*shape {
+	var out []*shape
+	for _, sh := range in {
+		c := *sh
+		c.mode, c.aok = mode, aok
+		if keep == nil || keep(&c) {
+			out = append(out, &c)
+		}
+	}
 	return out
 }
 
@@ -76,6 +124,28 @@ func (sh *shape) weight() int {
 	return w
 }
 
+func (sh *shape) anyDefault() bool {
+	for _, d := range sh.opt {
+		if d {
+			return true
+		}
+	}
+	for _, d := range sh.key {
+		if d {
+			return true
+		}
+	}
+	return false
+}
+
+// vecOpts selects the argument vectors of a family.
+type vecOpts struct {
+	maxPairs  int
+	noAlias   bool // without the unknown keys named like the function's own parameters
+	aokTails  bool // plus tails containing :allow-other-keys t / nil
+	spellings bool // plus every declared key in UPPER and Mixed case
+}
+
 // keySections enumerates the argument tails that follow the positional arguments:
 //
 //	(a) every sequence of <= maxPairs key/value pairs over the declared keys and the unknown key zz
@@ -86,16 +156,18 @@ func (sh *shape) weight() int {
 //
 // without &key in the lambda list only the tails {}, {:zz v}, {:zz} are used (they are ordinary
 // positional values there).
-func keySections(sh *shape, maxPairs int) [][]string {
+func keySections(sh *shape, vo vecOpts) [][]string {
 	var out [][]string
-	if len(sh.key) == 0 {
-		return [][]string{nil, {"zz", "v"}, {"zz"}}
+	zz := sh.unknownKey()
+	if !sh.hasKeySection() {
+		return [][]string{nil, {zz, "v"}, {zz}}
 	}
+	maxPairs := vo.maxPairs
 	var alpha []string
 	for i := range sh.key {
-		alpha = append(alpha, keyName(i))
+		alpha = append(alpha, sh.keyArg(i))
 	}
-	alpha = append(alpha, "zz")
+	alpha = append(alpha, zz)
 	var seqs [][]string // sequences of keys
 	var rec func(cur []string)
 	rec = func(cur []string) {
@@ -125,36 +197,67 @@ func keySections(sh *shape, maxPairs int) [][]string {
 	for _, s := range seqs {
 		if len(s) < maxPairs {
 			out = append(out, toArgs(s, alpha[0]))
-			out = append(out, toArgs(s, "zz"))
+			if alpha[0] != zz {
+				out = append(out, toArgs(s, zz))
+			}
 		}
 	}
-	var aliases []string
-	if 0 < sh.req {
-		aliases = append(aliases, reqNames[0])
-	}
-	if 0 < len(sh.opt) {
-		aliases = append(aliases, optName(0))
-	}
-	if sh.rest {
-		aliases = append(aliases, "r")
-	}
-	if sh.aux {
-		aliases = append(aliases, "x1")
-	}
-	for _, al := range aliases {
-		out = append(out, toArgs([]string{al}, ""))
-		for _, k := range alpha {
-			out = append(out, toArgs([]string{al, k}, ""))
-			out = append(out, toArgs([]string{k, al}, ""))
+	if !vo.noAlias {
+		var aliases []string
+		if 0 < sh.req {
+			aliases = append(aliases, sh.reqName(0))
 		}
+		if 0 < len(sh.opt) {
+			aliases = append(aliases, sh.optName(0))
+		}
+		if sh.rest {
+			aliases = append(aliases, sh.restName())
+		}
+		if sh.aux {
+			aliases = append(aliases, sh.auxName(0))
+		}
+		for _, al := range aliases {
+			out = append(out, toArgs([]string{al}, ""))
+			for _, k := range alpha {
+				out = append(out, toArgs([]string{al, k}, ""))
+				out = append(out, toArgs([]string{k, al}, ""))
+			}
+		}
+	}
+	if vo.aokTails {
+		// :allow-other-keys in the call: true / nil, before and after an unknown key, repeated (the first one counts), next to a declared key, without a value
+		out = append(out,
+			[]string{aokKey, "#t"}, []string{aokKey, "n"}, []string{aokKey, "v"}, []string{aokKey},
+			[]string{aokKey, "#t", zz, "v"}, []string{zz, "v", aokKey, "#t"}, []string{aokKey, "n", zz, "v"},
+			[]string{aokKey, "n", aokKey, "#t", zz, "v"}, []string{aokKey, "#t", aokKey, "n", zz, "v"})
+		if 0 < len(sh.key) {
+			k := sh.keyArg(len(sh.key) - 1)
+			out = append(out, []string{k, "v", aokKey, "#t", zz, "v"}, []string{aokKey, "#t", zz, "v", k, "v"}, []string{zz, "v", k, "n", aokKey, "#t"})
+		}
+	}
+	if vo.spellings {
+		// every declared key in upper and mixed case: alone, next to another key in another spelling, as a duplicate of its lower-case spelling
+		for i := range sh.key {
+			k := sh.keyArg(i)
+			other := sh.keyArg((i + 1) % len(sh.key))
+			for _, sp := range []byte{'U', 'M'} {
+				ks := spell(k, sp)
+				out = append(out, []string{ks, "v"}, []string{ks, "n"}, []string{ks})
+				if other != k {
+					out = append(out, []string{ks, "v", other, "v"}, []string{spell(other, 'U'+'M'-sp), "v", ks, "v"})
+				}
+				out = append(out, []string{k, "v", ks, "v"}, []string{ks, "v", k, "v"})
+			}
+		}
+		out = append(out, []string{spell(zz, 'U'), "v"})
 	}
 	return out
 }
 
 // argVectors enumerates the argument vectors of one shape.
-func argVectors(sh *shape, b boundsA, emit func(args string)) {
+func argVectors(sh *shape, vo vecOpts, emit func(args string)) {
 	maxPos := sh.req + len(sh.opt) + 2
-	tails := keySections(sh, b.maxPairs)
+	tails := keySections(sh, vo)
 	for p := 0; p <= maxPos; p++ {
 		pos := make([]string, p)
 		for i := range pos {
@@ -169,7 +272,7 @@ func argVectors(sh *shape, b boundsA, emit func(args string)) {
 			np[j] = "n"
 			tl := [][]string{nil}
 			if 0 < len(sh.key) {
-				tl = append(tl, []string{keyName(0), "v"})
+				tl = append(tl, []string{sh.keyArg(0), "v"})
 			}
 			for _, t := range tl {
 				emit(strings.Join(append(append([]string(nil), np...), t...), ","))
@@ -177,8 +280,8 @@ func argVectors(sh *shape, b boundsA, emit func(args string)) {
 		}
 		// (e) a declared key is given an explicit nil: alone, before and after another pair, and as the first of a duplicate
 		for ki := range sh.key {
-			k := keyName(ki)
-			other := keyName((ki + 1) % len(sh.key))
+			k := sh.keyArg(ki)
+			other := sh.keyArg((ki + 1) % len(sh.key))
 			for _, t := range [][]string{{k, "n"}, {k, "n", other, "v"}, {other, "v", k, "n"}, {k, "n", k, "v"}, {k, "v", k, "n"}} {
 				emit(strings.Join(append(append([]string(nil), pos...), t...), ","))
 			}
@@ -187,8 +290,13 @@ func argVectors(sh *shape, b boundsA, emit func(args string)) {
 		if 0 < len(sh.key) && 0 < p {
 			for j := 0; j < p; j++ {
 				kp := append([]string(nil), pos...)
-				kp[j] = keyName(0)
-				for _, t := range [][]string{nil, {keyName(0), "v"}, {keyName(len(sh.key) - 1), "v", "zz", "v"}} {
+				kp[j] = sh.keyArg(0)
+				tls := [][]string{nil, {sh.keyArg(0), "v"}, {sh.keyArg(len(sh.key) - 1), "v", sh.unknownKey(), "v"}}
+				if vo.spellings {
+					kp[j] = spell(sh.keyArg(0), 'U')
+					tls = tls[:2]
+				}
+				for _, t := range tls {
 					emit(strings.Join(append(append([]string(nil), kp...), t...), ","))
 				}
 			}
@@ -201,7 +309,7 @@ func enumerateA(tier string, emit func(string)) {
 	for _, sh := range shapes(b) {
 		code := sh.code()
 		for _, via := range b.vias {
-			argVectors(sh, b, func(args string) {
+			argVectors(sh, vecOpts{maxPairs: b.maxPairs}, func(args string) {
 				emit("A|" + via + "|" + code + "|" + args)
 			})
 		}
@@ -225,7 +333,7 @@ func enumerateA(tier string, emit func(string)) {
 	// FIRST call is what is compared: nothing bound in one call (the &rest list above all) may be changed by the next.
 	for _, sh := range shapes(b) {
 		code := sh.code()
-		argVectors(sh, boundsA{maxPairs: 2}, func(args string) {
+		argVectors(sh, vecOpts{maxPairs: 2}, func(args string) {
 			if args != "" {
 				emit("A|maprows|" + code + "|" + args)
 			}
@@ -234,6 +342,132 @@ func enumerateA(tier string, emit func(string)) {
 	for _, s := range defaultFormCases {
 		emit(s)
 	}
+	for _, fam := range families(b) {
+		fam.each(func(via string, sh *shape, args string) {
+			emit("A|" + via + "|" + sh.code() + "|" + args)
+		})
+	}
+}
+
+// ---------------------------------------------------------------- sixth round: families of further routes and dimensions
+
+// family = a set of shapes x a set of argument vectors x a set of call routes (expanded per vector, see expandVia).
+type family struct {
+	name   string
+	shapes []*shape
+	opts   vecOpts
+	vias   []string
+}
+
+var (
+	// routes that call the function once with exactly the argument vector
+	plainRoutes = []string{"spread", "mv.one", "mv.all", "mv.split", "mapcar1", "mapc", "every", "reduce", "reduceinit", "sort",
+		"fsharp", "ffunction", "fsymfn", "closure", "generic", "flavor", "macro", "recout", "recin"}
+	// routes x environments: every parameter name is also a variable around the call site (@call), around the
+	// definition site (@def) or a global of the current package (@glob)
+	envBases = []string{"defun", "funcall", "apply", "applysym", "fsharp", "closure", "generic", "flavor", "macro", "mapcar1"}
+	envKinds = []string{"call", "def", "glob"}
+	// routes over which the further lambda-list dimensions are run
+	dimRoutes = []string{"defun", "funcall", "apply", "generic", "flavor", "macro"}
+)
+
+func families(b boundsA) []*family {
+	routeShapes := shapesOf(b.routeReq, b.routeOpt, b.routeKey)
+	dimShapes := shapesOf(b.dimReq, b.dimOpt, b.dimKey)
+	formShapes := dimShapes
+	unsupShapes := shapesOf(b.unsupReq, b.unsupOpt, b.unsupKey)
+	if b.reduced {
+		one := patterns([]string{"d"}, []string{"dn"}, []string{"dnd"})
+		oneKey := patterns([]string{"d"}, []string{"nd"}, []string{"ndn"})
+		routeShapes = shapesWith(b.routeReq, b.routeOpt, b.routeKey, one, oneKey)
+		dimShapes = shapesWith(b.dimReq, b.dimOpt, b.dimKey, one, oneKey)
+		formShapes = shapesWith(b.dimReq, b.dimOpt, b.dimKey, patterns([]string{"d"}, []string{"dd", "nd"}), patterns([]string{"d"}, []string{"dd", "dn"}))
+	}
+	var envVias []string
+	for _, base := range envBases {
+		for _, k := range envKinds {
+			if k == "def" && (base == "closure" || base == "mapcar1" || base == "fsharp") {
+				continue // the definition site of these is the one of the defun route
+			}
+			envVias = append(envVias, base+"@"+k)
+		}
+	}
+	hasKeys := func(sh *shape) bool { return 0 < len(sh.key) }
+	return []*family{
+		{name: "routes", shapes: routeShapes, opts: vecOpts{maxPairs: b.routePairs, noAlias: !b.routeAlias}, vias: plainRoutes},
+		{name: "environments", shapes: routeShapes, opts: vecOpts{maxPairs: b.envPairs, noAlias: true}, vias: envVias},
+		{name: "default-forms", shapes: withMode(formShapes, 'f', false, func(sh *shape) bool { return sh.anyDefault() || sh.aux }),
+			opts: vecOpts{maxPairs: b.dimPairs, noAlias: true}, vias: append([]string{"closure"}, dimRoutes...)},
+		{name: "allow-other-keys-in-the-lambda-list", shapes: withMode(dimShapes, 0, true, nil),
+			opts: vecOpts{maxPairs: 1, noAlias: true, aokTails: true}, vias: dimRoutes},
+		{name: "allow-other-keys-in-the-call", shapes: withMode(dimShapes, 0, false, hasKeys),
+			opts: vecOpts{maxPairs: 0, noAlias: true, aokTails: true}, vias: dimRoutes},
+		{name: "spelling-declared-lower", shapes: withMode(dimShapes, 'L', false, hasKeys), opts: vecOpts{maxPairs: 1, noAlias: true, spellings: true}, vias: dimRoutes},
+		{name: "spelling-declared-upper", shapes: withMode(dimShapes, 'U', false, nil), opts: vecOpts{maxPairs: 1, noAlias: true, spellings: true}, vias: dimRoutes},
+		{name: "spelling-declared-mixed", shapes: withMode(dimShapes, 'M', false, nil), opts: vecOpts{maxPairs: 1, noAlias: true, spellings: true}, vias: dimRoutes},
+		{name: "supplied-p", shapes: withMode(unsupShapes, 's', false, func(sh *shape) bool { return 0 < len(sh.opt)+len(sh.key) && !sh.aux }),
+			opts: vecOpts{maxPairs: 1, noAlias: true}, vias: []string{"defun", "funcall"}},
+		{name: "keyword-specs", shapes: withMode(unsupShapes, 'q', false, func(sh *shape) bool { return 0 < len(sh.key) && !sh.aux }),
+			opts: vecOpts{maxPairs: 1, noAlias: true}, vias: []string{"defun", "funcall"}},
+	}
+}
+
+// each enumerates the (route, shape, vector) triples of the family, simplest shape first.
+func (fam *family) each(emit func(via string, sh *shape, args string)) {
+	for _, sh := range fam.shapes {
+		for _, via := range fam.vias {
+			argVectors(sh, fam.opts, func(args string) {
+				n := 0
+				if args != "" {
+					n = strings.Count(args, ",") + 1
+				}
+				for _, v := range expandVia(via, sh, n) {
+					emit(v, sh, args)
+				}
+			})
+		}
+	}
+}
+
+// expandVia: the concrete routes of a route name for a vector of n arguments (none when the route cannot pass such a vector).
+func expandVia(via string, sh *shape, n int) []string {
+	base := via
+	if i := strings.IndexByte(via, '@'); 0 < i {
+		base = via[:i]
+	}
+	switch base {
+	case "spread": // every split of the vector into spread arguments and the final list
+		out := make([]string, 0, n+1)
+		for k := 0; k <= n; k++ {
+			out = append(out, "spread."+strconv.Itoa(k))
+		}
+		return out
+	case "mapcar1", "mapc", "every":
+		if n < 1 {
+			return nil
+		}
+	case "reduce", "reduceinit", "sort":
+		if n != 2 {
+			return nil
+		}
+	case "recout", "recin":
+		if otherCount(sh, n) < 0 {
+			return nil
+		}
+	}
+	return []string{via}
+}
+
+// otherCount: the number of (positional) arguments of the OTHER activation of a recursive route: the number of required
+// parameters, or one more when the vector under test has exactly that many; -1 when no different count is possible.
+func otherCount(sh *shape, n int) int {
+	if n != sh.req {
+		return sh.req
+	}
+	if 0 < len(sh.opt) || sh.rest {
+		return sh.req + 1
+	}
+	return -1
 }
 
 // ---------------------------------------------------------------- execution
@@ -249,13 +483,23 @@ func freshName() string {
 
 func parseShape(f []string) *shape {
 	req, _ := strconv.Atoi(f[0])
-	return &shape{req: req, opt: parseFlags(f[1]), rest: f[2] == "1", key: parseFlags(f[3]), aux: f[4] == "1"}
+	sh := &shape{req: req, opt: parseFlags(f[1]), rest: f[2] == "1", key: parseFlags(f[3])}
+	a := f[4]
+	if strings.HasSuffix(a, "+") {
+		sh.aok = true
+		a = a[:len(a)-1]
+	}
+	sh.aux = strings.HasPrefix(a, "1")
+	if 1 < len(a) {
+		sh.mode = a[1]
+	}
+	return sh
 }
 
 func argTexts(args []arg) []string {
 	out := make([]string, len(args))
 	for i, a := range args {
-		out[i] = a.text()
+		out[i] = a.callText()
 	}
 	return out
 }
@@ -281,31 +525,37 @@ func callFeatures(sh *shape, args []arg) []string {
 		if a.kw == "" {
 			continue
 		}
+		kw := strings.ToLower(a.kw)
+		if kw != a.kw {
+			add("keyword-spelled-with-upper-case")
+		}
 		if i < npos {
 			add("keyword-as-positional-value")
 			continue
 		}
-		if len(sh.key) == 0 {
+		if !sh.hasKeySection() {
 			add("keyword-without-&key")
 			continue
 		}
 		isKeyParam := false
 		for k := range sh.key {
-			if keyName(k) == a.kw {
+			if sh.keyArg(k) == kw {
 				isKeyParam = true
 			}
 		}
 		switch {
 		case isKeyParam:
-			if seen[a.kw] {
+			if seen[kw] {
 				add("duplicate-key")
 			}
-			seen[a.kw] = true
-		case a.kw == "zz":
+			seen[kw] = true
+		case kw == aokKey:
+			add("allow-other-keys-argument")
+		case kw == sh.unknownKey():
 			add("unknown-key")
 		default:
 			for j, n := range names {
-				if n == a.kw {
+				if n == kw {
 					add("unknown-key-named-like-" + kinds[j])
 				}
 			}
@@ -324,10 +574,13 @@ func execA(spec string) (res engine.Result) {
 	via := f[1]
 	sh := parseShape(f[2:7])
 	args := parseArgs(f[7])
+	if isNewRoute(via) || sh.mode != 0 || sh.aok {
+		return execRoute(spec, via, sh, args)
+	}
 	exp := acceptable(sh, args)
 
 	ll := sh.lambdaList()
-	names, kinds := sh.params()
+	names, _ := sh.params()
 	body := "(tr 'in) (list " + strings.Join(names, " ") + ")"
 	at := argTexts(args)
 	name := freshName()
@@ -400,11 +653,11 @@ func execA(spec string) (res engine.Result) {
 		}
 		cols := make([]string, len(args))
 		for i, a := range args {
-			second := a.text()
+			second := a.callText()
 			if a.kw == "" && !a.isNil {
 				second = strconv.Itoa(a.val + 700)
 			}
-			cols[i] = "(list " + a.text() + " " + second + ")"
+			cols[i] = "(list " + a.callText() + " " + second + ")"
 		}
 		call := "(let ((rows (mapcar '" + name + " " + strings.Join(cols, " ") + "))) (tr 'after) (car rows))"
 		src += call
@@ -421,10 +674,32 @@ func execA(spec string) (res engine.Result) {
 		return
 	}
 	trace := lisp.Trace()
-	bodyRan := 0 < len(trace)
+	ob := &observation{via: via, sh: sh, args: args, exp: exp, val: val, err: err, bodyRan: 0 < len(trace), src: src}
+	judge(&res, ob)
+	return
+}
+
+// observation is what one call showed, handed to the judge.
+type observation struct {
+	via     string
+	sh      *shape
+	args    []arg
+	exp     *expectation
+	val     slip.Object // the list of all parameters as the body saw them
+	err     *lisp.Err
+	bodyRan bool
+	pre     []string        // what was logged before the body started (default forms evaluated, in order)
+	src     string          // the program
+	foreign map[string]bool // renderings of the values of like-named variables around the call (environment routes)
+}
+
+// judge applies the oracle to one observed call and bumps the vacuity counters.
+func judge(res *engine.Result, ob *observation) {
+	via, sh, args, exp, err := ob.via, ob.sh, ob.args, ob.exp, ob.err
+	_, kinds := sh.params()
 
 	// vacuity counters
-	res.Nontrivial = 0 < len(sh.opt) || sh.rest || 0 < len(sh.key) || sh.aux || len(args) != sh.req
+	res.Nontrivial = 0 < len(sh.opt) || sh.rest || sh.hasKeySection() || sh.aux || len(args) != sh.req
 	feats := callFeatures(sh, args)
 	for _, ft := range feats {
 		res.Hit("A:" + ft)
@@ -443,18 +718,31 @@ func execA(spec string) (res engine.Result) {
 		o := exp.values[0]
 		for i, k := range kinds {
 			switch {
-			case k == "optional" && sh.opt[indexOfKind(kinds, i)] && o.vals[i] == strconv.Itoa(optDefaultBase+indexOfKind(kinds, i)):
+			case k == "optional" && sh.mode != 'f' && sh.opt[indexOfKind(kinds, i)] && o.vals[i] == strconv.Itoa(optDefaultBase+indexOfKind(kinds, i)):
 				res.Hit("A:optional-default-used")
-			case k == "key" && sh.key[indexOfKind(kinds, i)] && o.vals[i] == strconv.Itoa(keyDefaultBase+indexOfKind(kinds, i)):
+			case k == "key" && sh.mode != 'f' && sh.key[indexOfKind(kinds, i)] && o.vals[i] == strconv.Itoa(keyDefaultBase+indexOfKind(kinds, i)):
 				res.Hit("A:key-default-used")
 			case k == "rest" && o.vals[i] != "nil":
 				res.Hit("A:rest-nonempty")
 			case k == "aux" && i == len(kinds)-1:
 				res.Hit("A:aux")
+			case strings.HasSuffix(k, "supplied-p") && o.vals[i] == "t" && o.vals[i-1] == "nil":
+				res.Hit("A:supplied-p-true-for-a-supplied-nil")
+			case strings.HasSuffix(k, "supplied-p") && o.vals[i] == "nil" && o.vals[i-1] != "nil":
+				res.Hit("A:supplied-p-false-with-a-non-nil-default")
 			}
+		}
+		if 0 < len(o.trace) {
+			res.Hit("A:default-form-with-side-effect-evaluated")
+		}
+		if sh.mode == 'f' && len(o.trace) < countForms(sh) {
+			res.Hit("A:default-form-with-side-effect-skipped-because-supplied")
 		}
 		if keysOutOfOrder(sh, args) {
 			res.Hit("A:keys-out-of-order")
+		}
+		if !exp.set["ERR"] && hasFeature(feats, "unknown-key") {
+			res.Hit("A:unknown-key-that-must-be-allowed")
 		}
 	}
 
@@ -466,12 +754,12 @@ func execA(spec string) (res engine.Result) {
 	case err != nil:
 		observed = "ERR"
 	default:
-		observed = lisp.Show(val)
+		observed = withTrace(lisp.Show(ob.val), ob.pre)
 	}
 	res.Outcome = observed
 	if err != nil {
 		res.Outcome += ":" + err.Class
-		if bodyRan {
+		if ob.bodyRan {
 			res.Outcome += ":body-ran"
 		}
 	}
@@ -480,12 +768,17 @@ func execA(spec string) (res engine.Result) {
 	// key named like one of the function's own parameters (wrong binding), a call without arguments (rejected call)
 	sig := func(kind string) string {
 		s := "A via=" + via + " kind=" + kind
+		if sh.mode != 0 || sh.aok {
+			s = "A via=" + via + " lambda-list=" + dimensionName(sh) + " kind=" + kind
+		}
 		pf := primaryFeature(feats)
 		switch {
 		case strings.HasPrefix(pf, "unknown-key-named-like-") && (strings.HasPrefix(kind, "wrong-binding") || strings.HasPrefix(kind, "valid-call-rejected") || kind == "go-fault"):
 			s += " call=" + pf
 		case pf == "no-args" && strings.HasPrefix(kind, "valid-call-rejected"):
 			s += " call=no-args"
+		case (pf == "allow-other-keys-argument" || pf == "keyword-spelled-with-upper-case") && kind != "go-fault" && !strings.Contains(kind, "not-rejected"):
+			s += " call=" + pf
 		}
 		return s
 	}
@@ -493,11 +786,11 @@ func execA(spec string) (res engine.Result) {
 		got := observed
 		if err != nil {
 			got = "error " + err.String()
-			if bodyRan {
+			if ob.bodyRan {
 				got += " (raised AFTER the body had started to run)"
 			}
 		}
-		return fmt.Sprintf("%s => %s; required: %s", src, got, exp.describe())
+		return fmt.Sprintf("%s => %s; required: %s", ob.src, got, exp.describe())
 	}
 	reason := func() string {
 		for _, r := range []string{"too-few", "too-many", "non-keyword-in-key-position", "odd-key-tail", "unknown-key"} {
@@ -512,7 +805,7 @@ func execA(spec string) (res engine.Result) {
 		res.Fail(sig("go-fault"), detail())
 	case err != nil && exp.onlyError():
 		// an error is required; for a wrong argument count it must reject the call, not surface from a body that ran
-		if bodyRan && (exp.errReasons["too-few"] || exp.errReasons["too-many"]) {
+		if ob.bodyRan && (exp.errReasons["too-few"] || exp.errReasons["too-many"]) {
 			res.Fail(sig(reason()+"-not-rejected:body-ran-then-"+err.Class), detail())
 		}
 	case err != nil && exp.set["ERR"]:
@@ -527,14 +820,65 @@ func execA(spec string) (res engine.Result) {
 		// fine
 	case exp.onlyError():
 		res.Fail(sig(reason()+"-accepted"), detail())
+	case exp.hasValues(lisp.Show(ob.val)):
+		res.Fail(sig("evaluation:"+diffEvaluation(ob)), detail())
 	default:
-		res.Fail(sig("wrong-binding:"+diffBindings(sh, args, val, exp)), detail())
+		res.Fail(sig("wrong-binding:"+diffBindings(ob)), detail())
 	}
-	return
+}
+
+func dimensionName(sh *shape) string {
+	var p []string
+	switch sh.mode {
+	case 'f':
+		p = append(p, "default-forms")
+	case 's':
+		p = append(p, "supplied-p")
+	case 'q':
+		p = append(p, "keyword-specs")
+	case 'L':
+		p = append(p, "long-names")
+	case 'U':
+		p = append(p, "declared-upper-case")
+	case 'M':
+		p = append(p, "declared-mixed-case")
+	}
+	if sh.aok {
+		p = append(p, "allow-other-keys")
+	}
+	return strings.Join(p, "+")
+}
+
+func countForms(sh *shape) int {
+	n := 0
+	for _, d := range sh.opt {
+		if d {
+			n++
+		}
+	}
+	for _, d := range sh.key {
+		if d {
+			n++
+		}
+	}
+	if sh.aux {
+		n += 2
+	}
+	return n
+}
+
+func hasFeature(feats []string, f string) bool {
+	for _, x := range feats {
+		if x == f {
+			return true
+		}
+	}
+	return false
 }
 
 var featurePriority = []string{
 	"unknown-key-named-like-required", "unknown-key-named-like-optional", "unknown-key-named-like-rest", "unknown-key-named-like-aux",
+	"keyword-spelled-with-upper-case", "allow-other-keys-argument",
 	"duplicate-key", "unknown-key", "keyword-as-positional-value", "keyword-without-&key", "no-args",
 }
 
@@ -563,7 +907,7 @@ func keysOutOfOrder(sh *shape, args []arg) bool {
 	last := -1
 	for i := sh.req + len(sh.opt); i < len(args); i++ {
 		for k := range sh.key {
-			if args[i].kw == keyName(k) {
+			if strings.EqualFold(args[i].kw, sh.keyArg(k)) {
 				if k < last {
 					return true
 				}
@@ -574,11 +918,52 @@ func keysOutOfOrder(sh *shape, args []arg) bool {
 	return false
 }
 
+// diffEvaluation: the bindings are right, the default forms were not evaluated as prescribed (once, only for absent
+// arguments, left to right); names what differs.
+func diffEvaluation(ob *observation) string {
+	shown := lisp.Show(ob.val)
+	var want []string
+	for _, o := range ob.exp.values {
+		if o.valueString() == shown {
+			want = o.trace
+			break
+		}
+	}
+	count := func(xs []string) map[string]int {
+		m := map[string]int{}
+		for _, x := range xs {
+			m[x]++
+		}
+		return m
+	}
+	wc, gc := count(want), count(ob.pre)
+	for k, n := range gc {
+		switch {
+		case k[0] >= '0' && k[0] <= '9':
+			return "argument-form-of-a-macro-call-evaluated"
+		case wc[k] == 0:
+			return "default-form-evaluated-although-the-argument-was-supplied"
+		case wc[k] < n:
+			return "default-form-evaluated-more-than-once"
+		}
+	}
+	for k := range wc {
+		if gc[k] == 0 {
+			return "default-form-not-evaluated"
+		}
+	}
+	return "default-forms-not-evaluated-left-to-right"
+}
+
 // diffBindings names which parameter kinds are bound wrongly and what they hold instead, relative
 // to the closest acceptable value outcome.
-func diffBindings(sh *shape, args []arg, val slip.Object, exp *expectation) string {
+func diffBindings(ob *observation) string {
+	sh, args, val, exp := ob.sh, ob.args, ob.val, ob.exp
 	names, kinds := sh.params()
 	list, ok := val.(slip.List)
+	if val == nil {
+		list, ok = slip.List{}, true
+	}
 	if !ok || len(list) != len(names) {
 		return "result-shape"
 	}
@@ -606,6 +991,8 @@ func diffBindings(sh *shape, args []arg, val slip.Object, exp *expectation) stri
 		}
 		what := "other"
 		switch {
+		case ob.foreign[got[i]]:
+			what = "outer-variable"
 		case got[i] == "nil":
 			what = "nil"
 		case kinds[i] == "optional" && got[i] == strconv.Itoa(optDefaultBase+indexOfKind(kinds, i)),
@@ -622,13 +1009,28 @@ func diffBindings(sh *shape, args []arg, val slip.Object, exp *expectation) stri
 				if a.text() == got[i] {
 					what = "another-argument"
 				}
+				if a.form && strconv.Itoa(a.val) == got[i] {
+					what = "evaluated-argument-form"
+				}
 			}
 		}
 		set[kinds[i]+"="+what] = true
 	}
 	var parts []string
+	outer := 0 < len(set)
 	for k := range set {
 		parts = append(parts, k)
+		if !strings.HasSuffix(k, "=outer-variable") {
+			outer = false
+		}
+		if strings.HasSuffix(k, "=evaluated-argument-form") {
+			// one defect class (a macro call evaluates its argument forms) whatever else is displaced by it
+			return "evaluated-argument-form"
+		}
+	}
+	if outer {
+		// one defect class whatever the kinds of the parameters it shows on (they are in the detail)
+		return "outer-variable"
 	}
 	sort.Strings(parts)
 	return strings.Join(parts, ",")
